@@ -109,8 +109,6 @@ Spec == Init /\ [][Next]_vars
 (* State-level consequences of the rules (Cubic.tla).                      *)
 Inv == StateClamp(st) /\ StateFinite(st) /\ StateFloor(st)
 
-(* "never increases it": as an action property over the witness machine    *)
-(* this is implied by the Assert; kept as a readable cross-check of Post.  *)
 TypeOK ==
     /\ depth \in 0..Depth
     /\ st.mss \in MssSet /\ st.rw \in 0..Big /\ st.w \in 0..Big /\ st.u \in 0..Big /\ st.s \in 0..Huge
